@@ -208,3 +208,42 @@ def _h_system_roundtrip(n: int, m: int) -> bool:
     return (back.rxns == rs.rxns and back2.rxns == rs.rxns and list(back.substances) == keys
             and text == ((str(n) + " ") if n != 1 else "") + "(NH4)2SO4 + H+ -> " + ((str(m) + " ") if m != 1 else "") + "X\nX -> "
             + ((str(n) + " ") if n != 1 else "") + "Y\n")
+
+
+from chempy.equilibria import EqSystem  # noqa
+
+
+def _h_eqsystem_roundtrip(n: int, m: int) -> bool:
+    """
+    pre: 1 <= n <= 1000 and 1 <= m <= 1000
+    post: _
+    """
+    # the same text interface with the '=' arrow: every non-comment line is one equilibrium (none of them is anything else)
+    keys = ["(NH4)2SO4", "H+", "X", "Y"]
+    es = EqSystem([Equilibrium({"(NH4)2SO4": n, "H+": 1}, {"X": m}, checks=()), Equilibrium({"X": 1}, {"Y": n}, checks=())], keys,
+                  substance_factory=Substance)
+    text = es.string()
+    back = EqSystem.from_string(text, keys, substance_factory=Substance, rxn_parse_kwargs=dict(globals_=False))
+    lines = "# a comment\n\n" + text + "   \n# trailing comment\n"
+    back2 = EqSystem.from_string(lines, keys, substance_factory=Substance, rxn_parse_kwargs=dict(globals_=False))
+    return (back.rxns == es.rxns and back2.rxns == es.rxns and len(back.rxns) == 2 and list(back.substances) == keys
+            and all(isinstance(r, Equilibrium) for r in back.rxns)
+            and text == ((str(n) + " ") if n != 1 else "") + "(NH4)2SO4 + H+ = " + ((str(m) + " ") if m != 1 else "") + "X\nX = "
+            + ((str(n) + " ") if n != 1 else "") + "Y\n")
+
+
+def _h_float_coefficients(n: int) -> bool:
+    """
+    pre: 1 <= n <= 24
+    post: _
+    """
+    # non-integer coefficients are printed so that they read back as exactly the same numbers (only parameters may be rounded)
+    return all([_float_coefficients(n, d, a) for d in (7, 8, 3) for a in ("H2O", "[Fe(CN)6]-3")])
+
+
+def _float_coefficients(n, d, a):
+    k = [j for j in range(1, 25) if n == j][0]  # concrete copy of n: one path per value, plain python floats below (no float modelling)
+    x = k / d
+    r = Reaction({a: x, "B": 1}, {"P": 2 * x}, checks=())
+    back = Reaction.from_string(str(r), None, globals_=False, checks=())
+    return _plain(back.reac) == {a: x, "B": 1} and _plain(back.prod) == {"P": 2 * x} and back == r
